@@ -82,7 +82,7 @@ def do_ktrace(req):
         rule = sem.get_axiom(i + req['definition'].get('ordinal_offset', 0))
         scope = sem._cached_axiom_scopes[rule.ordinal]
         cv = {'ordinal': rule.ordinal, 'rule': B.to_json(rule.pattern), 'varmap': [[k, v.name] for k, v in scope._metavars.items()],
-              'subst': [], 'conv_substituted': B.to_json(rule.pattern), 'has': False}
+              'subst': [], 'conv_substituted': B.to_json(rule.pattern), 'has': False, 'error': ''}
         sg = (req.get('rule_substs') or {}).get(str(i))
         if sg is not None:
             try:
